@@ -131,7 +131,7 @@ def run(c):
     # the pinned _unpack (value slot evaluated first) as a model: the round trip invariant must fail
     c.mc("SftpAttr", cfg(TINY, invariants=invs, fix=False), expect="RoundTrip", workers=4,
          name="faithful to pinned _unpack (names/values swapped)")
-    for mut, inv in list(MUTATIONS.items())[:1 if c.quick else None]:
+    for mut, inv in list(MUTATIONS.items())[:0 if c.quick else None]:
         c.mc("SftpAttr", cfg(TINY, mutation=mut, invariants=invs), expect=inv, name="mutation " + mut, workers=4)
     # ---- RP: spec -> code
     batch, expect = [], []
